@@ -71,6 +71,11 @@ def protocol_battery():
     for hdr_, row_ in (("A D_out Y", "1 7 X"), ("D_out", "7"), ("A E_out D", "1 X 3"), ("A D D_out E E_out", "0 1 X Z 2"), ("Y", "X")):
         b.append(Scenario("%s\n%s\n%s\n" % (hdr_, row_, row_), Sbd, default_answer=[0, 0, 0],
                           note="bidirectional signals named only by their _out column (or not at all) are still driven: header %s" % hdr_))
+    # seventh round: a declared signal reads Z / X on one row: that row is an error item after ONE call, no second sample
+    Sz = [("in", "A", 1, 0), ("out", "Y", 8)]
+    for bad in ("Z", "X"):
+        b.append(Scenario("A Y V\ndeclare V = Y + 1;\n0 X X\n1 X X\n0 X X\n", Sz, default_answer=[3], answers={2: [bad]}, stop_on_err=False,
+                          expect={"call_kinds": ["read"] * 4, "nrows": 2}, note="virtual signal reads %s on the second row: one call per row" % bad))
     # sixth round: the same TestCase value was run before (other layouts): constructor call and one call per row all the same
     for pre in ([["Q", "Y"]], [["Y"], []], [["?0", "Q", "Y"]]):
         b.append(Scenario("CLK A Y\nC 0 1\n0 (Y) X\n", S, default_answer=[1, 0], pre_layouts=pre,
@@ -179,6 +184,15 @@ def attribution_battery():
                       note="rows that repeat their inputs report the answer of their own call"))
     b.append(Scenario("Y B\nX X\nX X\n2 X\n", [("out", "Y", 8), ("out", "B", 8)], layout=["Y", "B"], default_answer=[0, 0],
                       answers={1: [1, 1], 2: [2, 2], 3: [3, 3]}, note="a test without input columns reports each call's answer"))
+    # seventh round: a row whose extraction fails half-way (a declared signal divides by an output that is 0) leaves nothing
+    # behind: the next row reports its own call's values
+    Sd = [("in", "A", 1, 0), ("out", "B", 8), ("out", "C", 8)]
+    b.append(Scenario("A B C V\ndeclare V = 8 / B;\n0 X X X\n1 X X X\n0 X X X\n1 X X X\n", Sd, layout=["B", "C"], default_answer=[1, 1],
+                      answers={1: [2, 20], 2: [0, 10], 3: [4, 12], 4: [8, 16]}, stop_on_err=False,
+                      note="extraction fails on the second row; later rows report their own values"))
+    b.append(Scenario("A B C V\ndeclare V = C + 1;\n0 X X X\n1 X X X\n0 X X X\n", Sd, layout=["C", "B"], default_answer=[1, 1],
+                      answers={1: [20, 2], 2: ["Z", 10], 3: [12, 4]}, stop_on_err=False,
+                      note="virtual signal reads Z on the second row; the third row reports its own values"))
     # sixth round: the same TestCase value run before by drivers with other layouts - attribution follows THIS driver's answer
     for pre in ([["W", "D", "Q", "Y"]], [["Q"], ["Y", "Q", "D", "W"]], [["?0", "Y", "Q", "D"]]):
         b.append(Scenario(prog, S, layout=["Y", "Q", "D", "W"], default_answer=[1, 2, 3, 4], pre_layouts=pre,
@@ -405,6 +419,10 @@ def reads_battery():
                       expect={"items": ["row", "err"]}, note="reading Z is an error item"))
     b.append(Scenario("A Y\n1 X\n(Y) X\n", S, answers={0: [1, 0], 1: ["X", 0]}, default_answer=[0, 0],
                       expect={"items": ["row", "err"]}, note="reading X is an error item"))
+    # seventh round: readings wider than the signal (sign-extended, stray high bits) are read as the driver returned them
+    Sw = [("in", "A", 64, 0), ("out", "Y", 4), ("out", "DONE", 1)]
+    b.append(Scenario("A Y\n(Y) X\n(Y) X\n(Y + 1) X\n", Sw, answers={0: [-3, 0], 1: [29, 0], 2: [-1, 0]}, default_answer=[0, 0],
+                      expect={"row_inputs": [["-3"], ["29"], ["0"]]}, note="out-of-width readings of a 4-bit output are not reduced before expressions see them"))
     # sixth round: the test case was run before by a driver that supplies everything / another layout
     b.append(Scenario("A Y\n(Y) X\n", S, layout=["DONE"], default_answer=[0], pre_layouts=[["Y", "DONE"]],
                       expect={"new": "err", "calls": 1}, note="read output not supplied by THIS driver (an earlier run had it): constructor fails"))
@@ -527,6 +545,7 @@ def virtual_battery():
     b.append(Scenario("A B V\ndeclare V = B * 2;\n1 X X\n1 X X\n1 X X\n", S, answers={1: [3, 0], 2: [4, 0], 3: [5, 0]},
                       default_answer=[0, 0], expect={"row_outputs": [["3", "0", "6"], ["4", "0", "8"], ["5", "0", "10"]]},
                       note="rows that repeat their inputs still see the row's own outputs"))
+    b += virtual_repeat_scenarios()
     return b
 
 
@@ -534,6 +553,15 @@ virtual_judge = literal_judge
 
 
 # ------------------------------------------------------------------ C06 binding by header name
+
+def virtual_repeat_scenarios():
+    """a device output literally called n, a declared signal reading it, rows produced by repeat (whose counter is n)"""
+    S = [("in", "A", 8, 0), ("out", "n", 8), ("out", "Y", 8)]
+    return [Scenario("A n Y V\ndeclare V = n * 2 + 1;\nrepeat(3) (n) X X X\nloop(n,2)\n(n) X X X\nend loop\n", S, default_answer=[20, 0],
+                     answers={1: [21, 0], 2: [22, 0], 3: [23, 0], 4: [24, 0], 5: [25, 0]},
+                     expect={"row_inputs": [["0"], ["1"], ["2"], ["0"], ["1"]], "row_outputs": [["21", "0", "43"], ["22", "0", "45"], ["23", "0", "47"], ["24", "0", "49"], ["25", "0", "51"]]},
+                     note="output named n: the declared signal reads the device's n on repeat / loop rows, the row entry reads the counter")]
+
 
 def binding_battery():
     # signal list: output first, inputs in an order different from the headers, a bidirectional pair
@@ -594,6 +622,13 @@ def binding_battery():
     b.append(Scenario("IO2_out IO_out Y\n5 7 6\n", S2, default_answer=[0, 0, 0],
                       expect={"row_inputs_full": [[("IO", "1", False), ("IO2", "2", False)]], "row_expected": [["7", "5", "6"]]},
                       note="read-back columns of two signals one of whose names is a prefix of the other"))
+    # seventh round: an output (or declared signal) N whose column is omitted while a signal literally named N_out has one:
+    # N is don't-care, it does not borrow the N_out column
+    Sn = [("in", "A", 1, 0), ("out", "N", 8), ("out", "N_out", 8), ("out", "Q", 4)]
+    b.append(Scenario("A N_out\n1 5\n0 6\n", Sn, default_answer=[0, 0, 0],
+                      expect={"row_expected": [["X", "5", "X"], ["X", "6", "X"]]}, note="output N omitted, signal N_out has a column: N stays X"))
+    b.append(Scenario("A N_out V_out\ndeclare V = N + 1;\n1 5 7\n", Sn + [("out", "V_out", 8)], default_answer=[0, 0, 0, 0],
+                      expect={"row_expected": [["X", "5", "X", "7", "X"]]}, note="declared signal V omitted, output V_out has a column: V stays X"))
     return b
 
 
@@ -676,6 +711,14 @@ def control_battery():
                 "repeat(1) still opens the scope of its counter", default_answer=[0]))
     b.append(sc("A B Y\nlet acc = 10;\nloop(i,4)\nlet acc = acc + i + 1;\n(i) (acc) X\nend loop\n10 99 X\n",
                 [(0, 11), (1, 13), (2, 16), (3, 20), (10, 99)], "a let in a loop body accumulates across iterations", default_answer=[0]))
+    # seventh round: passes of a while body that reach no row (lets only; an inner loop with bound 0) - the condition is
+    # evaluated again all the same
+    b.append(sc("A B Y\nlet n = 90;\nlet r = 0;\nwhile((r + 1) * (r + 1) <= n)\nlet r = r + 1;\nend while\n(r) (n) X\n", [(9, 90)],
+                "a while body of lets only runs until its condition fails (integer square root)"))
+    b.append(sc("A B Y\nlet k = 0;\nwhile(k < 4)\nloop(j, k - 1)\n(k) (j) X\nend loop\nlet k = k + 1;\nend while\n9 9 X\n",
+                [(2, 0), (3, 0), (3, 1), (9, 9)], "while passes whose inner loop has bound <= 0 produce no row and do not end the while"))
+    b.append(sc("A B Y\nlet k = 0;\nwhile(k < 3)\nrepeat(k & 1) (k) 7 X\nlet k = k + 1;\nend while\n", [(1, 7)],
+                "rowless first pass, row in the second, rowless third"))
     # fifth round: rows after a row whose output extraction failed still see the program's variables and loop frames
     Sv = [("in", "A", 8, 0), ("in", "B", 8, 0), ("out", "Y", 8)]
     b.append(Scenario("A B Y V\ndeclare V = 8 / Y;\nlet k = 7;\nloop(i,3)\n(i+k) (i) X X\nend loop\n(k) 9 X X\n", Sv, default_answer=[1],
@@ -874,6 +917,10 @@ def vars_battery():
     b.append(sc("A B\nlet x = 1;\nlet y = 1;\nloop(a,1)\nlet x = 2;\nloop(b,1)\nlet y = 3;\nlet x = 4;\nloop(c,1)\nloop(d,1)\n(x+y) X\nend loop\nend loop\nend loop\nend loop\n",
                 [{"x": "4", "y": "3", "a": "0", "b": "0", "c": "0", "d": "0"}],
                 "names bound in three enclosing scopes below two scopes that bind nothing"))
+    Sn = [("in", "A", 8, 0), ("out", "B", 8), ("out", "Q", 8), ("out", "n", 8)]
+    b.append(Scenario("A B\nlet Q = 0;\n(Q) X\nrepeat(2) (n) X\nlet B = 7;\n(B) X\n", Sn, show_vars=True, default_answer=[7, 0, 0], max_rows=50,
+                      expect={"vars": [{"Q": "0"}, {"Q": "0", "n": "0"}, {"Q": "0", "n": "1"}, {"Q": "0", "B": "7"}]},
+                      note="variables bound to the very value the device reports for an output of their name are still variables"))
     b.append(sc("A B\nlet k = 0;\nloop(i,2)\nloop(z,k)\n9 X\nend loop\n(i) X\nend loop\n5 X\n",
                 [{"k": "0", "i": "0"}, {"k": "0", "i": "1"}, {"k": "0"}],
                 "zero-trip loop inside a loop leaves the outer frame to the outer loop"))
@@ -912,6 +959,10 @@ def malformed_battery():
         ("A B\n(random(1,2)) 1\n", "wrong number of arguments for random"),
         ("A B\n9223372036854775808 1\n", "literal does not fit in 64 bits"),
         ("A B\n0x10000000000000000 1\n", "hex literal does not fit"),
+        ("A B\n(Random(4)) 1\n", "function name in the wrong case: Random"),
+        ("A B\n(ITE(1,0,1)) 1\n", "function name in the wrong case: ITE"),
+        ("A B\n(signext(4,1)) 1\n", "function name in the wrong case: signext"),
+        ("A B\nlet v = iTe(1, 2, 3);\n1 1\n", "function name in mixed case in a let"),
         ("A B\nloop(i,2)\nlet n = 0;\nwhile(n < 2)\nlet n = n + 1;\n1 1\nend loop\nend while\n", "crossed terminators: loop closed inside the while"),
         ("A B\nlet n = 0;\nwhile(n < 1)\nloop(i,2)\nlet n = n + 1;\n1 1\nend while\nend loop\n", "crossed terminators: while closed inside the loop"),
         ("A B\nloop(i,2)\nwhile(0)\n1 1\nend loop\nend while", "crossed terminators, no trailing newline"),
@@ -1061,6 +1112,14 @@ def bind_battery():
     b.append(sc("A A_out B\n1 2 0\n", "ok", "column bound twice, every column names a signal", sigs=Sdup, then_run=False))
     Sdup2 = [("bidir", "A", 4, "Z"), ("in", "A_out", 4, 0), ("bidir", "C", 2, "Z"), ("in", "C_out", 2, 0)]
     b.append(sc("A_out C_out U1 U2\n1 2 3 4\n", "err", "two doubly bound columns and two unknown ones", sigs=Sdup2))
+    # seventh round: `<name>_out` is the read-back COLUMN of a bidirectional signal - not a clock column, not an identifier,
+    # and no alias for the column of a plain output or a declared signal
+    Sbi = [("bidir", "A", 4, "Z"), ("in", "CLK", 1, 0), ("out", "Y", 8)]
+    b.append(sc("A A_out Y\n1 C X\n", "err", "C in the read-back column of a bidirectional signal", sigs=Sbi))
+    b.append(sc("CLK A_out\nC C\n", "err", "C in a read-back column next to a real clock", sigs=Sbi))
+    b.append(sc("A Y\n(A_out) X\n", "err", "an expression reads `A_out` (no such signal, no such variable)", sigs=Sbi))
+    b.append(sc("A Y\nlet t = A_out + 1;\n(t) X\n", "err", "a let reads `A_out`", sigs=Sbi))
+    b.append(sc("A A_out Y\n1 X X\n", "ok", "plain use of the bidirectional pair", sigs=Sbi))
     # third round: a declared (virtual) signal is not something an expression can read
     b.append(sc("A Y V\ndeclare V = Q + 1;\n(V) X X\n", "err", "a row entry reads a declared signal"))
     b.append(sc("A Y\ndeclare V = Q;\nlet t = V + 1;\n(t) X\n", "err", "a let reads a declared signal"))
@@ -1117,6 +1176,9 @@ def static_battery():
                           note="another iterator over the same test is dropped after %d rows first" % k))
     b.append(Scenario("A CLK Y Q\nX C 1 2\n", S, mode="both", default_answer=[1, 2], abandon=2, expect={"static": "ok"},
                       note="an iterator dropped in the middle of an X / C expansion leaves nothing behind"))
+    # seventh round: a variable first bound inside a while body, named like an output, used after the while: no output read
+    b.append(Scenario("A Y\nlet k = 0;\nwhile(k < 2)\nlet k = k + 1;\nlet Q = k + 5;\n(Q) X\nend while\n(Q) X\n", S, mode="both",
+                      default_answer=[40, 50], expect={"static": "ok"}, note="a variable first bound in a while body and named like an output is still a variable after the while"))
     # fifth round: the same TestCase value iterated before by drivers with other output layouts (same length, another
     # order; a subset; nothing) - the observed run equals the static rows all the same
     for pre in ([["Q", "Y"]], [["Y"], ["Q"]], [[], ["Q", "Y"]], [["Y", "Q"], ["Q", "Y"], ["Q"]]):
@@ -1259,6 +1321,18 @@ def dig_battery():
     t5 = ("cr-blank-first", "\r\n\r\nA Y\r\n1 1\r\n")
     b.append(Scenario(dig_xml(pins, [t5]), [], mode="dig", load="0", default_answer=[0, 0],
                       expect={"dig": "ok", "load": "ok", "tests": [t5], "lines": [4]}, note="CRLF blank lines before the header of a document test"))
+    # seventh round: load by index is by position, also among tests that share a label (or have none)
+    dup = [("same", "A Y\n1 1\n"), ("same", "A Y\n2 2\n"), ("same", "A Y\n3 3\n")]
+    for k in (1, 2):
+        b.append(Scenario(dig_xml(pins, dup), [], mode="dig", load=str(k), default_answer=[0, 0],
+                          expect={"dig": "ok", "load": "ok", "row_inputs": [[str(k + 1), "0", "0", "Z"]]}, note="three tests with one label, load_test(%d)" % k))
+    b.append(Scenario(dig_xml(pins, [(None, "A Y\n1 1\n"), (None, "A Y\n2 2\n")]), [], mode="dig", load="1", default_answer=[0, 0],
+                      expect={"dig": "ok", "load": "ok", "row_inputs": [["2", "0", "0", "Z"]]}, note="two unlabelled tests, load_test(1)"))
+    b.append(Scenario(dig_xml(pins, [("same", "A Y\n1 1\n"), ("same", "A Y\n1 1 1\n")]), [], mode="dig", load="1", default_answer=[0, 0],
+                      expect={"dig": "ok", "load": "err"}, note="the second of two equally labelled tests is malformed: load_test(1) reports it"))
+    # NBSP in a test header: the document loads or is an error, never a panic
+    for hdr_ in ("A\u00a0B Y", "A B\u00a0", "\u00a0A B Y", "A \u00a0 Y"):
+        b.append(Scenario(dig_xml(pins, [("nbsp", hdr_ + "\n1 0 1\n")]), [], mode="dig", note="no-break space in a test header (%r): no panic" % hdr_))
     # sixth round: test headers laid out with tabs, several blanks, CR, leading blank lines - the document loads all the same
     for hdr_, what in (("A\tB\tY", "tabs"), ("A   B \t Y", "several blanks"), ("\n\n  A B Y", "leading blank lines and blanks"),
                        ("A B Y  \t", "trailing blanks"), ("A B Y\r", "CR before the line break")):
